@@ -597,6 +597,7 @@ func main() {
 	translateCRS(*repo, writeImp)
 	translateInverse(*repo, writeImp)
 	translateMulConst(*repo, writeImp)
+	translateFrSqrt(*repo, writeImp)
 	fmt.Println("extract: ok")
 }
 
